@@ -1555,7 +1555,11 @@ def ds_config(I, c, apply_aug):
     if c.get("aug") and apply_aug:
         aug = {c["aug"]: dict(c["aug_cfg"])}
     return I.OC.create({"user_instances_only": True,
-                        "preprocessing": {"is_rgb": (not c["gray"]) != bool(c.get("conv"))},
+                        # every key of the PreprocessingConfig schema the datasets read (max_height / max_width:
+                        # None = use the max_hw argument, as every docstring says; the code reads both since the
+                        # F180 repair, the chunk functions always did)
+                        "preprocessing": {"is_rgb": (not c["gray"]) != bool(c.get("conv")),
+                                          "max_height": None, "max_width": None},
                         "augmentation_config": aug})
 
 
